@@ -67,7 +67,10 @@ def _case(draw, tier):
     return {"cfg": cfg, "contents": [content, other], "docs": [{"hex": "6d657461"}], "kind": kind,
             "offset": offset, "with_pid": with_pid, "reject_first": reject_first, "ops": hist, "pre": pre,
             # the caller hands the very same stream object to a second store_object (another pid) right after the first returned
-            "reuse_stream": draw(st.integers(0, 3)) == 0}
+            "reuse_stream": draw(st.integers(0, 3)) == 0,
+            # ... and after a REFUSED first attempt the retry uses the same stream while the application lets go of the first
+            # attempt's exception object at the k-th file-system step of the retry
+            "drop_exceptions_at": draw(st.sampled_from([None, None, 0, 1, 2, 3, 5, 8, 12]))}
 
 
 def strategy(tier):
@@ -261,7 +264,11 @@ def run_case(case, ctx):
             ctx.violation("bad-validation-accepted", f"{run.describe(r)}")
         _check_stream(ctx, r, "a rejected store_object")
     # (given by path: the caller's file is a private copy that the caller REWRITES IN PLACE right after the call)
-    r = run.step({"op": "store", "pid": pid, "c": 0, "kind": kind, "offset": offset, "clobber_source": True})
+    main_op = {"op": "store", "pid": pid, "c": 0, "kind": kind, "offset": offset, "clobber_source": True}
+    if case.get("reject_first") and case.get("drop_exceptions_at") is not None and pid is not None:
+        main_op.update(reuse_stream=True, drop_exceptions_at=case["drop_exceptions_at"])
+        ctx.classify("retry-with-the-same-stream-while-the-first-exception-is-released")
+    r = run.step(main_op)
     if not is_ok(r.out):
         ctx.violation("store-failed", f"store_object({kind}, {len(data)} bytes, offset {offset}) "
                       f"raised {r.out[1]}: {r.out[2]}", {"kind_arg": kind, "err": r.out[1]})
